@@ -22,6 +22,7 @@ CStep(ev) ==
          [] ev.a = "getval"    -> GetVal(ev.arg.h, n)
          [] ev.a = "typeof"    -> TypeOf(ev.arg.h, n)
          [] ev.a = "metaptr"   -> MetaPtr(ev.arg.h, n)
+         [] ev.a = "asmeta"    -> AsMeta(ev.arg.h, ev.arg.t, n)
          [] ev.a = "addref"    -> AddRef(ev.arg.h, ev.obs.got, n)
          [] ev.a = "release"   -> Release(ev.arg.h, n)
          [] ev.a = "clone"     -> Clone(ev.arg.h, ev.arg.h2, n)
